@@ -57,6 +57,11 @@ func (x *Exec) loopInvariants(st *State, fr *Frame, l *Loop, phase string, assum
 	for i, g := range x.autoInvariants(st, fr, l) {
 		emitOrAssume(fmt.Sprintf("auto%d", i), g.text, g.goal, nil)
 	}
+	if ls != nil && assume {
+		for _, u := range ls.Uses {
+			x.useLemma(st, env, u, nil)
+		}
+	}
 	if ls != nil {
 		for i, inv := range ls.Invariants {
 			g := x.evalSpec(inv.E, env)
